@@ -5,7 +5,8 @@ From TK Require Import Mat_Sums Mat_Core Mat_Qc.
 From TK Require Import Dijkstra_Model Dijkstra_Spec Dijkstra_IsoModel Dijkstra_IsoExec Dijkstra_Sched_Model
      Dijkstra_Proof_Base Dijkstra_Proof_Spec Dijkstra_Proof Dijkstra_Proof_Iso Dijkstra_Proof_IsoExec
      Dijkstra_Proof_Sched Dijkstra_IsoEmbed Dijkstra_IsoSelect Dijkstra_IsoOptimal Dijkstra_FibC_Model
-     Dijkstra_Proof_FibC Dijkstra_Scale Dijkstra_IsoFrobenius.
+     Dijkstra_Proof_FibC Dijkstra_Scale Dijkstra_IsoFrobenius Dijkstra_PQC_Model Dijkstra_Proof_PQC
+     Dijkstra_Proof_PQC_Heap.
 From TK Require Mds_Proof_Optimal Mds_Proof_OptimalClamped.
 From Coq Require Import Permutation.
 Import ListNotations.
@@ -51,6 +52,50 @@ Theorem fib_concrete_trace_erasure : forall nbrs w N K src fidx,
     fst (row_fibc_tr nbrs w N K src fidx) = row_fibc nbrs w N K src fidx.
 Proof. exact row_fibc_tr_erase. Qed.
 Print Assumptions fib_concrete_trace_erasure.
+
+(* ---- the priority-queue configuration with the queue NOT abstracted (wave 2): std::priority_queue over
+   std::vector = libstdc++'s binary heap (push_heap: sift up; pop_heap: the last cell sinks from the root to a leaf
+   along the smaller children, then rises), Dijkstra_PQC_Model.v.  No `pick`: the tie-breaking is the heap's own. ---- *)
+(* push_heap / pop_heap permute the vector (plus / minus one cell), keep the heap order, and the first cell of a
+   heap-ordered vector has a minimal key: std::priority_queue meets the contract `pick_ok` assumed above *)
+Theorem binary_heap_refines_queue :
+    (forall x c, Permutation (bh_push x c) (x :: c)) /\
+    (forall top rest, Permutation (bh_pop (top :: rest)) rest) /\
+    (forall x c, heap_ord c -> heap_ord (bh_push x c)) /\
+    (forall top rest, heap_ord (top :: rest) -> heap_ord (bh_pop (top :: rest))) /\
+    (forall top rest, heap_ord (top :: rest) -> is_min top (top :: rest) = true).
+Proof.
+  split; [exact bh_push_perm|]. split; [exact bh_pop_perm|]. split; [exact bh_push_ord|].
+  split; [exact bh_pop_ord | exact heap_ord_is_min].
+Qed.
+Print Assumptions binary_heap_refines_queue.
+
+Theorem dijkstra_pq_concrete_correct : forall nbrs w N K,
+    wf_graph nbrs N K -> nonneg_w nbrs w -> (0 < N)%nat ->
+    full_matrix_pqc nbrs w N = DOk (sp_matrix nbrs w N).
+Proof. exact full_matrix_pqc_correct. Qed.
+Print Assumptions dijkstra_pq_concrete_correct.
+
+Theorem landmark_pq_concrete_correct : forall nbrs w N K lm,
+    wf_graph nbrs N K -> nonneg_w nbrs w -> (0 < N)%nat -> Forall (fun v => (v < N)%nat) lm ->
+    landmark_matrix_pqc nbrs w N lm = DOk (sp_landmarks nbrs w N lm).
+Proof. exact landmark_matrix_pqc_correct. Qed.
+Print Assumptions landmark_pq_concrete_correct.
+
+(* "identical for both priority-queue back-ends", with both queues concrete (libstdc++ binary heap, tapkee's
+   Fibonacci heap): no abstraction of the tie-breaking left on either side *)
+Theorem concrete_backends_equal : forall nbrs w N K lm,
+    wf_graph nbrs N K -> nonneg_w nbrs w -> (0 < N)%nat -> Forall (fun v => (v < N)%nat) lm ->
+    full_matrix_pqc nbrs w N = full_matrix_fibc nbrs w N /\
+    landmark_matrix_pqc nbrs w N lm = landmark_matrix_fibc nbrs w N lm.
+Proof. exact pqc_fibc_agree. Qed.
+Print Assumptions concrete_backends_equal.
+
+(* the instrumented copy (which also lists the calls of the distance callback) computes the same row *)
+Theorem pq_concrete_trace_erasure : forall nbrs w N K src fidx,
+    fst (row_pqc_tr nbrs w N K src fidx) = row_pqc nbrs w N K src fidx.
+Proof. exact row_pqc_tr_erase. Qed.
+Print Assumptions pq_concrete_trace_erasure.
 
 Theorem backends_equal : forall nbrs w N K pick1 pick2,
     wf_graph nbrs N K -> nonneg_w nbrs w -> pick_ok pick1 -> pick_ok pick2 -> (0 < N)%nat ->
@@ -439,3 +484,17 @@ Example frobenius_hypotheses_satisfiable :
      Mds_Proof_Optimal.fro2 n n (msub (mds_ref n emb_G) (mmul d Y (mtrans Y))) = qz 0) /\
     Mds_Proof_Optimal.fro2 n n (msub (mds_ref n emb_G) (Mds_Proof_Optimal.lowrank d Q C)) = qz 17.
 Proof. exact isomap_frobenius_contract_satisfiable. Qed.
+
+(* the concrete binary-heap configuration on the F4 witness graph (computed), and a heap-ordered vector *)
+Example pq_concrete_hypotheses_satisfiable :
+    full_matrix_pqc f4_nbrs f4_w 3 = DOk (sp_matrix f4_nbrs f4_w 3) /\
+    landmark_matrix_pqc f4_nbrs f4_w 3 f4_lm = DOk (sp_landmarks f4_nbrs f4_w 3 f4_lm).
+Proof. exact pqc_example. Qed.
+
+(* a heap-ordered vector with ties (hypothesis of binary_heap_refines_queue), and what push / pop make of it *)
+Example heap_hypotheses_satisfiable :
+    heap_ord [(0%nat, 1); (1%nat, 3); (2%nat, 1); (3%nat, 3)] /\
+    bh_push (4%nat, 0) [(0%nat, 1); (1%nat, 3); (2%nat, 1); (3%nat, 3)] =
+      [(4%nat, 0); (0%nat, 1); (2%nat, 1); (3%nat, 3); (1%nat, 3)] /\
+    bh_pop [(0%nat, 1); (1%nat, 3); (2%nat, 1); (3%nat, 3)] = [(2%nat, 1); (1%nat, 3); (3%nat, 3)].
+Proof. exact heap_ord_example. Qed.
